@@ -43,6 +43,9 @@ def cast(v, kind):
     raise Unsupported('cast to ' + kind)
 
 
+SQRT = z3.Function('sqrt', z3.RealSort(), z3.RealSort())
+
+
 class Models:
     def __init__(self, ex):
         self.ex = ex
@@ -207,7 +210,7 @@ class Models:
         return linalg.matmul(self, a, b, st, node)
 
     def sqrt(self, x, st):
-        r = z3.Real(fresh_name('sqrt'))
+        r = SQRT(to_real(x))
         st.assume(z3.Implies(to_real(x) >= 0, z3.And(r >= 0, r * r == to_real(x))))
         self.ex.use('A-REAL:sqrt')
         return r
